@@ -446,3 +446,73 @@ def bench_text(prog, rng):
             lines.append(q + W() + "=" + W() + rng.choice(["DFF", "dff"]) + "(" + W() + d + W() + ")")
     rng.shuffle(lines)
     return "# generated\n" + "\n".join(lines) + "\n"
+
+
+def parse_writer_text(text, bbtypes):
+    """Abstract syntax (the JSON form of to_spec, items in TEXT order) of a netlist laid out as io.circuit_to_verilog
+    writes it: one statement per line, `assign l = <net | ~net | a op b op c | ~(a op b) | 1'b.>`, primitives
+    `type name(out, in...)`, instances `type name (.pin(net), .pin())`.  Only used to bind the writer model to the text
+    the real writer produced (drift clauses); anything it cannot read makes it return None."""
+    import re
+
+    ident = r"\\\S+|[A-Za-z_][A-Za-z_0-9$]*"
+    m = re.match(r"\s*module\s+(%s)\s*\((.*?)\);" % ident, text, re.S)
+    if not m:
+        return None
+    name = m.group(1)
+    ports = [x.strip() for x in m.group(2).split(",") if x.strip()]
+    body = text[m.end():]
+    inputs, outputs, wires, items = [], [], [], []
+    bbn = {t["type"]: t for t in bbtypes}
+
+    def operand(tok):
+        tok = tok.strip()
+        if tok in ("1'b0", "1'b1", "1'bx"):
+            return [tok[-1]]
+        if re.fullmatch(ident, tok):
+            return ["$" + tok]
+        raise ValueError(tok)
+
+    try:
+        for raw in body.split(";"):
+            st = raw.strip()
+            if not st or st == "endmodule":
+                continue
+            kw = st.split(None, 1)[0]
+            rest = st[len(kw):].strip()
+            if kw in ("input", "output", "wire"):
+                {"input": inputs, "output": outputs, "wire": wires}[kw].append(rest.strip())
+            elif kw == "assign":
+                lhs, rhs = [x.strip() for x in rest.split("=", 1)]
+                neg = False
+                if rhs.startswith("~(") and rhs.endswith(")"):
+                    neg, rhs = True, rhs[2:-1].strip()
+                elif rhs.startswith("~"):
+                    neg, rhs = True, rhs[1:].strip()
+                toks = rhs.split(" ")
+                # operands and operators alternate: a op b op c  (escaped names end with a blank the writer adds)
+                toks = [t for t in toks if t != ""]
+                ex = operand(toks[0])
+                k = 1
+                while k < len(toks):
+                    op = toks[k]
+                    if op not in ("&", "|", "^"):
+                        raise ValueError(op)
+                    ex = ex + operand(toks[k + 1]) + [op]
+                    k += 2
+                if neg:
+                    ex = ex + ["~"]
+                items.append({"k": "assign", "lhs": lhs, "rhs": ex})
+            elif kw in bbn:
+                mm = re.match(r"(%s)\s*\((.*)\)\s*$" % ident, rest, re.S)
+                conns = []
+                for c in re.finditer(r"\.(%s)\((.*?)\)" % ident, mm.group(2)):
+                    conns.append([c.group(1), operand(c.group(2)) if c.group(2).strip() else []])
+                items.append({"k": "bb", "type": kw, "inst": mm.group(1), "conns": conns})
+            else:
+                mm = re.match(r"(%s)\s*\((.*)\)\s*$" % ident, rest, re.S)
+                args = [a for a in (x.strip() for x in mm.group(2).split(",")) if a]
+                items.append({"k": "gate", "t": kw, "out": args[0], "ins": [operand(a) for a in args[1:]]})
+    except Exception:
+        return None
+    return {"name": name, "ports": ports, "inputs": inputs, "outputs": outputs, "wires": wires, "items": items, "bbtypes": bbtypes}
